@@ -9,7 +9,7 @@ use crate::tape::Tape;
 
 pub struct TypeChecks;
 
-fn other_width_ok(c: &Case) -> bool {
+pub fn other_width_ok(c: &Case) -> bool {
     let w2 = if c.w == 4 { 8 } else { 4 };
     if w2 == 4 {
         // a program written for a 64-bit target may name addresses / discriminants a 32-bit target cannot hold
